@@ -436,7 +436,7 @@ class CoqBatch:
           mism.append({"what": "constructor", "label": ctor[i][0], "coq": ctor[i][1], "file": name})
       for what, chunk, txt in (("dense", dense, terms[1]), ("sparse", sparse, terms[2])):
         rows = {}
-        for m in re.finditer(r"\((\d+), \[([\d; ]*)\]\)", txt):
+        for m in re.finditer(r"\(\s*(\d+)\s*,\s*\[([\d;\s]*)\]\s*\)", txt):
           rows[int(m.group(1))] = [int(x) for x in m.group(2).replace(";", " ").split()]
         if len(chunk) not in rows:
           res.obligation("comparator-live:" + name, False, "the %s canary was not reported: %s" % (what, txt[:300]))
@@ -628,7 +628,7 @@ def check_construct(b, rep):
       if r[1] == r[2] and t is not b.TRUE:
         return ("eq-same-not-true", "Eq(x,x) is not TRUE")
       nv = normal_violation(b, t)
-      return ("eq-" + nv, "Eq(%r,%r) = %s" % (r[1], r[2], show(canon(b, t)))) if nv else None
+      return (nv, "Eq(%r,%r) = %s, but Eq() documents left > right" % (r[1], r[2], show(canon(b, t)))) if nv else None
     kids = [build(b, x) for x in r[1]]
     names = set()
     for k in kids:
@@ -775,7 +775,10 @@ def run(res):
       "generator, renderer and differ in harness/props/c17.py; Model.res_same (set comparison inside Coq), "
       "checked live by a canary case in every cases file",
   ]
+  t_ph = time.time()
   common.coq_obligations(res, "C17", extra_targets=["Booleq/Model.vo"])
+  res.extra["phase_s"] = {"coq_build_and_theorems(incl. waiting for the shared build lock)": round(time.time() - t_ph, 1)}
+  t_ph = time.time()
   cx = Ctx(res, b)
   r = common.rng(res.seed, "c17")
   p = cx.pool
@@ -786,19 +789,22 @@ def run(res):
     corpus = []
     for f in sorted(os.listdir(cdir)) if os.path.isdir(cdir) else []:
       corpus.append((f, json.load(open(os.path.join(cdir, f)))))
+    res.extra["corpus_entries"] = len(corpus)
     for f, rep in corpus:
       v = check_replay(b, rep)
       if v:
         cx.violation(v[0], v[1], rep)
-      t = build(b, rep["recipe"])
-      ti = p.intern(t, rep["recipe"])
+      rc = rep["recipe"]
       if rep["kind"] == "simplify":
+        ti = p.intern(build(b, rc), rc)
         tbl = {k: set(vv) for k, vv in rep["table"].items()}
-        ri = cx.simplify_pair(ti, tbl, None)
+        ri = simplify_general(cx, ti, tbl)
         cx.batch.sparse.append(("corpus:" + f, ti, [(cx.batch.table_index(tbl), ri)]))
-      elif not isinstance(rep["recipe"], str) and rep["recipe"][0] in ("And", "Or"):
-        kids = [p.intern(build(b, x), x) for x in rep["recipe"][1]]
-        cx.call_op(rep["recipe"][0], kids)
+      elif not isinstance(rc, str) and rc[0] in ("And", "Or"):
+        kids = [p.intern(build(b, x), x) for x in rc[1]]
+        cx.call_op(rc[0], kids, general=True)
+      elif not isinstance(rc, str) and rc[0] == "Eq":
+        cx.call_eq(rc[1], rc[2])
 
     # ---- depth 1: all Eq calls
     p.intern(b.TRUE, "TRUE"); p.intern(b.FALSE, "FALSE")
@@ -819,6 +825,29 @@ def run(res):
         for args in itertools.product(atoms, repeat=n):
           add(d2, cx.call_op(kn, list(args)))
     d2_small = list(d2)                              # arity <= 2
+    # ---- simplify: dense = every table; sparse = sampled tables
+    def dense(ti, label):
+      results, pos, which = [], {}, []
+      for k, tbl in enumerate(cx.tables):
+        ri = cx.simplify_pair(ti, tbl, cx.masks[k])
+        if ri not in pos:
+          pos[ri] = len(results); results.append(ri)
+        which.append(pos[ri])
+        res.count((ti, k) if ri != ti else None)
+        if ri is not None and ri != ti and len(res.samples) < 4 and (ti * 31 + k) % 997 == 0:
+          res.sample({"term": show(p.canon[ti]), "table": {q: sorted(v) for q, v in tbl.items()},
+                      "simplified_impl": show(p.canon[ri])})
+      cx.batch.dense.append((label, ti, results, which))
+    def sparse(ti, label, n):
+      ks = r.sample(range(ntab), n)
+      prs = []
+      for k in ks:
+        ri = cx.simplify_pair(ti, cx.tables[k], cx.masks[k])
+        prs.append((k, ri))
+        res.count((ti, k) if ri != ti else None)
+      cx.batch.sparse.append((label, ti, prs))
+    for ti in d2_small:
+      dense(ti, "d2")
     triples = list(itertools.product(atoms, repeat=3))
     if level == 0:
       triples = r.sample(triples, 400)
@@ -831,7 +860,7 @@ def run(res):
     # ---- depth 3: And/Or over pairs of depth<=2 (arity<=2) terms
     pairs = list(itertools.product(d2_small, repeat=2))
     if level < 2:
-      pairs = r.sample(pairs, 8000 if level else 1000)
+      pairs = r.sample(pairs, 3000 if level else 1000)
     d3 = []
     seen3 = set()
     for kn in ("And", "Or"):
@@ -853,36 +882,16 @@ def run(res):
     res.extra["terms"] = {"atoms": len(atoms), "depth<=2 arity<=2": len(d2_small), "depth2 arity3 (new)": len(d2_big),
                           "depth3 (new)": len(d3), "random wider/deeper (new)": len(deep_terms)}
 
-    # ---- simplify: dense = every table; sparse = sampled tables
-    ntab = len(cx.tables)
-    def dense(ti, label):
-      results, pos, which = [], {}, []
-      for k, tbl in enumerate(cx.tables):
-        ri = cx.simplify_pair(ti, tbl, cx.masks[k])
-        if ri not in pos:
-          pos[ri] = len(results); results.append(ri)
-        which.append(pos[ri])
-        res.count((ti, k) if ri != ti else None)
-      cx.batch.dense.append((label, ti, results, which))
-    def sparse(ti, label, n):
-      ks = r.sample(range(ntab), n)
-      prs = []
-      for k in ks:
-        ri = cx.simplify_pair(ti, cx.tables[k], cx.masks[k])
-        prs.append((k, ri))
-        res.count((ti, k) if ri != ti else None)
-      cx.batch.sparse.append((label, ti, prs))
-    for ti in d2_small:
-      dense(ti, "d2")
-    if level:
+    # ---- simplify for the wider/deeper terms
+    if level == 2:
       for ti in d2_big:
         dense(ti, "d2w")
       for ti in d3:
-        sparse(ti, "d3", 24 if level == 2 else 16)
+        sparse(ti, "d3", 24)
       for ti in deep_terms:
-        sparse(ti, "rnd", 24 if level == 2 else 16)
+        sparse(ti, "rnd", 24)
     else:
-      for ti in r.sample(d2_big, min(len(d2_big), 40)):
+      for ti in r.sample(d2_big, min(len(d2_big), 150 if level else 40)):
         dense(ti, "d2w")
       for ti in d2_big:
         sparse(ti, "d2w", 8)
@@ -926,6 +935,7 @@ def run(res):
     res.extra["stopped_early"] = "3 violations with concrete inputs found"
     cx.batch.ctor = cx.batch.ctor[:1500]; cx.batch.dense = cx.batch.dense[:40]; cx.batch.sparse = cx.batch.sparse[:300]
   d2_small, d3 = info["d2_small"], info["d3"]
+  res.extra["phase_s"]["implementation_runs_and_oracle"] = round(time.time() - t_ph, 1)
 
   # ---- model vs implementation
   mism = cx.batch.run(res)
